@@ -151,7 +151,33 @@ const HISTORY_EXPRESSIONS: &[&str] = &[
   "{a: {b: x}}.a.b",
   "if x = 1 then {a: 1} else [x]",
   "x in (1, [2..3])",
+  // evaluations that could leave something behind in the thread or the process (a resolved zone offset, a compiled pattern,
+  // the status of a conversion): the same text with other arguments follows or precedes them in the histories
+  "date and time(\"2021-03-28T01:30:00@Europe/Warsaw\").time offset",
+  "[date and time(\"2021-03-28T12:00:00@Europe/Warsaw\").time offset, date and time(\"2021-03-28T12:00:00@Europe/Warsaw\") - date and time(\"2021-03-28T00:00:00Z\")]",
+  "matches(\"ABC\", \"^abc$\")",
+  "matches(\"ABC\", \"^abc$\", \"i\")",
+  "[number(\"12,5\", null, null), number(string(x), \" \", \".\")]",
+  "number(\"12.5\", \" \", \".\") + 0.05",
 ];
+
+/// `vh c13op <n>`: the value of history operation n on fresh objects, printed (used for the pristine values)
+pub fn print_history_operation(op: usize) {
+  let n_s = 3;
+  let scopes = history_scopes();
+  let evs = history_evaluators();
+  let (e, s) = (op / n_s, op % n_s);
+  let v = if e < evs.len() {
+    evs[e](&scopes[s])
+  } else {
+    let tscope = table_scope(s);
+    match table_evaluator(&tscope) {
+      Some(te) => te(&tscope),
+      None => Value::Null(Some("table evaluator could not be built".into())),
+    }
+  };
+  println!("{}", v);
+}
 
 fn history_scopes() -> Vec<Scope> {
   vec![
@@ -480,25 +506,24 @@ pub fn run() {
   let n_s = 3;
   let n_ops = n_e * n_s;
   let len = if thorough { 4 } else { 3 };
-  // pristine results
+  // pristine results: every operation in a process of its own (`vh c13op <n>`), so that nothing an earlier evaluation left
+  // behind in the thread or the process - a cache, a status - is part of the value the operation has when made alone
   let pristine: Vec<String> = {
-    let mut out = vec![];
-    for op in 0..n_ops {
-      let scopes = history_scopes();
-      let evs = history_evaluators();
-      let (e, s) = (op / n_s, op % n_s);
-      let v = if e < evs.len() {
-        evs[e](&scopes[s])
-      } else {
-        let tscope = table_scope(s);
-        match table_evaluator(&tscope) {
-          Some(te) => te(&tscope),
-          None => Value::Null(Some("table evaluator could not be built".into())),
+    let exe = std::env::current_exe().expect("own executable");
+    let outs: Vec<Option<String>> = (0..n_ops)
+      .into_par_iter()
+      .map(|op| {
+        let o = std::process::Command::new(&exe).arg("c13op").arg(op.to_string()).env("TZ", "UTC").output().ok()?;
+        if !o.status.success() {
+          return None;
         }
-      };
-      out.push(v.to_string());
+        Some(String::from_utf8_lossy(&o.stdout).trim_end_matches('\n').to_string())
+      })
+      .collect();
+    if outs.iter().any(|o| o.is_none()) {
+      run.machinery_error("a pristine history operation could not be evaluated in a process of its own");
     }
-    out
+    outs.into_iter().map(|o| o.unwrap_or_default()).collect()
   };
   let distinct_pristine: BTreeSet<&String> = pristine.iter().collect();
   let total_seqs: u64 = (1..=len).map(|l| (n_ops as u64).pow(l as u32)).sum();
